@@ -1817,3 +1817,11 @@ func (st *State) noteInstForce(t *T) {
 	}
 	st.instTerms = append(st.instTerms, t)
 }
+
+// allocBound: the declared allocation bound (//@ allocbound N), 1 GiB when not declared.
+func (x *Exec) allocBound() int64 {
+	if x.cs != nil && x.cs.AllocBound > 0 {
+		return x.cs.AllocBound
+	}
+	return 1 << 30
+}
